@@ -155,12 +155,14 @@ func FuzzC12_Envelope(f *testing.F) {
 	var replay *Case
 	addReplay(f, 1, func(c any) { replay = c.(*Case) })
 	f.Fuzz(func(t *testing.T, sel []byte, data []byte) {
-		if replay != nil { // a saved failure is re-evaluated exactly as recorded
-			r := &runner{}
-			invoke(r, replay)
-			fuzzFail(t, r, replay)
-		}
-		fuzzEnvelope(t, nil, sel, data)
+		fuzzBody(t, func() {
+			if replay != nil { // a saved failure is re-evaluated exactly as recorded
+				r := &runner{}
+				invoke(r, replay)
+				fuzzFail(t, r, replay)
+			}
+			fuzzEnvelope(t, nil, sel, data)
+		})
 	})
 }
 
@@ -182,12 +184,14 @@ func fuzzFileTarget(f *testing.F, kinds []string) {
 	var replay *FileCase
 	addReplay(f, 5, func(c any) { replay = c.(*FileCase) })
 	f.Fuzz(func(t *testing.T, sel byte, data []byte) {
-		if replay != nil {
-			r := &runner{}
-			runFile(r, replay)
-			fuzzFail(t, r, replay)
-		}
-		fuzzFile(t, nil, kinds, sel, data, ff.crtPEM)
+		fuzzBody(t, func() {
+			if replay != nil {
+				r := &runner{}
+				runFile(r, replay)
+				fuzzFail(t, r, replay)
+			}
+			fuzzFile(t, nil, kinds, sel, data, ff.crtPEM)
+		})
 	})
 }
 
